@@ -352,6 +352,13 @@ example : mergeLanelets ⟨1, [], [2], [(0,2),(2,2),(2,2),(2,4)], [(0,1),(2,1),(
     = .ok ⟨12, [], [], [(0,2),(2,2),(2,2),(2,4),(2,6)], [(0,1),(2,1),(3,2),(3,4),(3,6)], [(0,0),(2,0),(4,2),(4,4),(4,6)]⟩ := by
   decide +kernel
 
+-- the merge loop of all_lanelets_by_merging_successors_from_lanelet on a chain 1 -> 2 -> 3: every joint kept once
+-- (`mergeChain` is tied to the code by the correspondence on every merged route; the harness oracle judges concatenation
+--  and additivity of the merged route lanelets)
+example : mergeChain ⟨1, [], [2], [(0,1),(2,1)], [(0,0),(2,0)], [(0,-1),(2,-1)]⟩
+            [⟨2, [1], [3], [(2,1),(5,1)], [(2,0),(5,0)], [(2,-1),(5,-1)]⟩, ⟨3, [2], [], [(5,1),(6,1)], [(5,0),(6,0)], [(5,-1),(6,-1)]⟩]
+    = .ok ⟨123, [], [], [(0,1),(2,1),(5,1),(6,1)], [(0,0),(2,0),(5,0),(6,0)], [(0,-1),(2,-1),(5,-1),(6,-1)]⟩ := by decide +kernel
+
 end CR.Arc
 
 /-! ## (D) successor / predecessor routes -/
